@@ -66,7 +66,9 @@ inductive GStep where
   | usageErr
   deriving Repr, DecidableEq, Inhabited
 
-def gitStep (tok : Str) (hasNext : Bool) : GStep :=
+/-- (`take2` with no next argument is the "no directory given" / "-c expects …" usage error,
+    decided in `gitScan`.) -/
+def gitStep (tok : Str) : GStep :=
   if !startsWithDash tok then .stopWord
   else if helpToks.contains tok || versionToks.contains tok then .stopHelpVersion
   else match dropPrefix? execPath tok with
@@ -75,7 +77,7 @@ def gitStep (tok : Str) (hasNext : Bool) : GStep :=
     | none =>
       if gitQuery.contains tok then .queryExit
       else if gitNoValue.contains tok then .take1
-      else if gitDetached.contains tok then (if hasNext then .take2 else .usageErr)
+      else if gitDetached.contains tok then .take2
       else if gitAttached.any (fun p => startsWith p tok) then .take1
       else if startsWith listCmdsEq tok then .queryExit
       else .usageErr
@@ -93,7 +95,7 @@ inductive GScan where
 def gitScan : List Str → List Str → GScan
   | [], pre => .noCommand pre
   | tok :: rest, pre =>
-    match gitStep tok (!rest.isEmpty) with
+    match gitStep tok with
     | .stopWord => .command pre tok rest
     | .stopHelpVersion => .helpVersion pre tok rest
     | .take1 => gitScan rest (pre ++ [tok])
